@@ -11,6 +11,7 @@ import (
 	"net/http/httptest"
 	"runtime"
 	"sort"
+	"strings"
 	"time"
 
 	cacheplug "github.com/IrineSistiana/mosdns/v5/plugin/executable/cache"
@@ -266,7 +267,15 @@ func c19Main(rc *RunCtx) {
 	ttls := []uint32{1, 2, 3, 5, 10, 30, 60, 300, 3600}
 	var qs []*dns.Msg
 	for i := 0; i < c.n; i++ {
-		q := mkQuery(fmt.Sprintf("n%d.test.", i), []uint16{dns.TypeA, dns.TypeAAAA, dns.TypeTXT}[simrt.Choose(3)], uint16(simrt.Choose(65536)))
+		q := mkQuery(fmt.Sprintf("n%d.test.", i), []uint16{dns.TypeA, dns.TypeAAAA, dns.TypeTXT, dns.TypeANY, dns.TypeAXFR, 257, 65280}[simrt.Choose(7)], uint16(simrt.Choose(65536)))
+		switch simrt.Choose(8) {
+		case 0: // a name of 128..253 octets (its length octet in the key is >= 0x80)
+			q.Question[0].Name = fmt.Sprintf("n%d.%s.%s.%s.test.", i, strings.Repeat("a", 60), strings.Repeat("b", 60), strings.Repeat("c", 30+simrt.Choose(30)))
+		case 1:
+			q.Question[0].Qclass = []uint16{dns.ClassCHAOS, dns.ClassANY, 0x8001}[simrt.Choose(3)]
+		case 2: // non-ASCII label bytes
+			q.Question[0].Name = fmt.Sprintf("n%d.\\200\\255x.test.", i)
+		}
 		if simrt.Choose(4) == 0 {
 			q.SetEdns0(1232, simrt.Choose(2) == 0)
 		}
